@@ -260,9 +260,23 @@ def w_style(st):
     return [[o(st["tag"]), o(st["fg"]), o(st["bg"])] + [st["attrs"] >> i & 1 for i in range(7)]]
 
 
+_DEFAULT_SET = []
+
+
 def default_set():
-    return [sty("info", "green"), sty("comment", "cyan"), sty("question", "blue"), sty("error", "red", None, 1), sty("b", None, None, 1),
-            sty("u", None, None, 8), sty("c1", "cyan"), sty("c2", "yellow")]
+    """the styles of DefaultStyleSet as read from the LIVE class (what AnsiFormatter() / PlainFormatter() register when no style
+    set is given): which colour a built-in tag has is not the property's business, so the model is handed what the code has"""
+    if not _DEFAULT_SET:
+        import sys, os
+        sys.dont_write_bytecode = True
+        p = os.environ.get("CLIKIT_SRC", "/repo/src")
+        if sys.path[0] != p:
+            sys.path.insert(0, p)
+        from clikit.formatter.default_style_set import DefaultStyleSet
+        for tag, st in DefaultStyleSet().styles.items():
+            flags = [st.is_bold(), st.is_italic(), st.is_dark(), st.is_underlined(), st.is_blinking(), st.is_inverse(), st.is_hidden()]
+            _DEFAULT_SET.append(sty(st.tag, st.foreground_color, st.background_color, sum(1 << i for i, f in enumerate(flags) if f)))
+    return [dict(x) for x in _DEFAULT_SET]
 
 
 def text_of(ti):
